@@ -79,6 +79,27 @@ def to_shape(v):
     return Const(v)
 
 
+def result_value(rows, row_indexer, col_indexers):
+    """what subscripting a block of stacked lines gives, as far as the wrapper model needs it: which lines (their bytes), whether
+    the row axis is still there, and the column indexers applied"""
+    if row_indexer is None:
+        return Obj("Result", OrderedDict())
+    try:
+        if isinstance(row_indexer, bool):
+            raise TypeError
+        if isinstance(row_indexer, int):
+            sel, axis = [rows[row_indexer]], False
+        elif isinstance(row_indexer, slice):
+            sel, axis = rows[row_indexer], True
+        else:
+            sel, axis = [rows[i] for i in row_indexer], True
+    except (IndexError, TypeError):
+        return Obj("Result", OrderedDict())
+    r = Obj("Result", OrderedDict())
+    r.sel = (list(sel), axis, tuple(col_indexers))
+    return r
+
+
 def numpy_model(load):
     def stack(I, a, kw):
         seq = a[0]
@@ -103,7 +124,7 @@ def numpy_model(load):
             load.rows = [r.fields["bytes"].v for r in rows]
             load.row_indexer = _plain(parts[0]) if parts else None
             load.col_indexers = tuple(_plain(x) for x in parts[1:])
-            return Obj("Result", OrderedDict())
+            return result_value(load.rows, load.row_indexer, load.col_indexers)
         return impl
 
     def empty(I, a, kw):
@@ -311,8 +332,75 @@ def run_wrapper_load(repo, n, width, rpc, key, gap=0, type_code="IU2", fault=Non
     xm = repo.module("ceos_alos2.xarray")
     xsc = I.module_scope(xm)
     result = lambda I_, a, kw: Obj("Result", OrderedDict())
-    xsc.vars["np"] = Obj("numpy", OrderedDict(dtype=Fn("py", impl=lambda I_, a, kw: a[0] if a else Const(None), name="np.dtype"), concatenate=Fn("py", impl=result, name="np.concatenate"),
-                                               vstack=Fn("py", impl=result, name="np.vstack"), stack=Fn("py", impl=result, name="np.stack"), ascontiguousarray=Fn("py", impl=lambda I_, a, kw: a[0], name="np.ascontiguousarray"),
+
+    def int_array(values):
+        # a concrete one-dimensional integer array (np.arange(n), a selection of it): what a fallback needs to enumerate lines
+        arr = Obj("IntArray", OrderedDict(values=ListLit([Const(x) for x in values]), size=Const(len(values)), ndim=Const(1),
+                                          shape=TupS([Const(len(values))])))
+
+        def getitem(I_, a, kw):
+            k = _plain(a[0])
+            if isinstance(k, tuple) and len(k) == 1:
+                k = k[0]
+            try:
+                if isinstance(k, bool) or k is None or isinstance(k, tuple):
+                    raise ShapeError(f"integer array indexed with {k!r}")
+                if isinstance(k, int):
+                    return Const(values[k])
+                if isinstance(k, slice):
+                    return int_array(values[k])
+                return int_array([values[i] for i in k])
+            except IndexError as e:
+                raise _Raise(f"IndexError: {e}", ["IndexError", "LookupError", "Exception", "BaseException", "object"])
+        arr.fields["__getitem__"] = Fn("py", impl=getitem, name="__getitem__")
+        arr.fields["__iter__"] = Fn("py", impl=lambda I_, a, kw: ListLit([Const(x) for x in values]), name="__iter__")
+        arr.fields["__len__"] = Fn("py", impl=lambda I_, a, kw: Const(len(values)), name="__len__")
+        arr.fields["tolist"] = Fn("py", impl=lambda I_, a, kw: ListLit([Const(x) for x in values]), name="tolist")
+        return arr
+
+    def arange(I_, a, kw):
+        args = [_plain(x) for x in a]
+        if kw or not all(isinstance(x, int) and not isinstance(x, bool) for x in args):
+            raise ShapeError("np.arange of something that is not a plain integer")
+        return int_array(list(range(*args)))
+
+    def atleast_1d(I_, a, kw):
+        if len(a) != 1 or kw:
+            raise ShapeError("np.atleast_1d of several values")
+        x = a[0]
+        if isinstance(x, Obj) and x.cls == "IntArray":
+            return x
+        if isinstance(x, Const) and isinstance(x.v, int) and not isinstance(x.v, bool):
+            return int_array([x.v])
+        if isinstance(x, (ListLit, TupS)) and all(isinstance(e, Const) and isinstance(e.v, int) for e in x.elts):
+            return int_array([e.v for e in x.elts])
+        raise ShapeError(f"np.atleast_1d of {x!r:.60}")
+
+    def combine(name, add_axis):
+        # np.stack / np.concatenate / np.vstack of results of the array along the row axis
+        def impl(I_, a, kw):
+            seq = a[0] if a else None
+            axis = kw.get("axis", a[1] if len(a) > 1 else Const(0))
+            if not isinstance(seq, (ListLit, TupS)) or not (isinstance(axis, Const) and axis.v == 0) or set(kw) - {"axis"}:
+                raise ShapeError(f"{name} of {seq!r:.60} along {axis!r:.20}")
+            parts = [getattr(x, "sel", None) for x in seq.elts]
+            if not parts or any(p is None for p in parts):
+                raise ShapeError(f"{name} of something that is not a result of indexing the array")
+            if len({p[2] for p in parts}) != 1:
+                raise ShapeError(f"{name} of results with different column indexers")
+            want_axis = not add_axis
+            if name == "np.vstack":
+                pass    # one-dimensional results become rows, two-dimensional ones are concatenated
+            elif any(p[1] != want_axis for p in parts):
+                raise ShapeError(f"{name} of results that {'still have' if add_axis else 'have lost'} their row axis")
+            if any(isinstance(c, int) and not isinstance(c, bool) for c in parts[0][2]) and not add_axis:
+                raise ShapeError(f"{name} of results whose column axis was dropped")
+            r = Obj("Result", OrderedDict())
+            r.sel = ([row for p in parts for row in p[0]], True, parts[0][2])
+            return r
+        return Fn("py", impl=impl, name=name)
+    xsc.vars["np"] = Obj("numpy", OrderedDict(arange=Fn("py", impl=arange, name="np.arange"), atleast_1d=Fn("py", impl=atleast_1d, name="np.atleast_1d"), dtype=Fn("py", impl=lambda I_, a, kw: a[0] if a else Const(None), name="np.dtype"), concatenate=combine("np.concatenate", False),
+                                               vstack=combine("np.vstack", False), stack=combine("np.stack", True), ascontiguousarray=Fn("py", impl=lambda I_, a, kw: a[0], name="np.ascontiguousarray"),
                                                asarray=Fn("py", impl=lambda I_, a, kw: a[0], name="np.asarray")))
     lock = Obj("Lock", OrderedDict())
     lock.fields["__enter__"] = Fn("py", impl=lambda I_, a, k: lock, name="__enter__")
@@ -321,8 +409,14 @@ def run_wrapper_load(repo, n, width, rpc, key, gap=0, type_code="IU2", fault=Non
     lock.fields["release"] = Fn("py", impl=lambda I_, a, k: Const(None), name="release")
     try:
         w = I.call(I.lookup("LazilyIndexedWrapper", xsc), [arr, lock], {})
-        I.call(I.getattr(w, "_raw_indexing_method"), [to_shape(tuple(key))], {})
-        ld.outcome = "returned"
+        res = I.call(I.getattr(w, "_raw_indexing_method"), [to_shape(tuple(key))], {})
+        sel = getattr(res, "sel", None)
+        if sel is None:
+            ld.outcome = "undecided: what the wrapper returns is not a result of indexing the array (or a stack of such results)"
+        else:
+            # the judge reads the Load: describe the value that is returned, not the last block that was subscripted
+            ld.rows, ld.row_indexer, ld.col_indexers = sel[0], (slice(None) if sel[1] else 0), sel[2]
+            ld.outcome = "returned"
     except _Raise as e:
         ld.outcome = f"raised: {e.what}"
     except NonTermination as e:
